@@ -16,6 +16,11 @@ for pid in sorted(os.listdir(out)):
     for f in ("patch.diff", "demo.py"):
         shutil.copy(os.path.join(src, f), dst)
     m = json.load(open(os.path.join(src, "meta.json")))
+    cf = os.path.join(src, "confirmed.json")
+    if os.path.exists(cf):
+        m["confirmed"] = json.load(open(cf))
+        if not m["confirmed"].get("confirmed"):
+            print(pid, "not confirmed - skipped"); shutil.rmtree(dst); continue
     m["property"] = m.get("property", pid)
     m["origin"] = "round %s: fresh sub-agent given only the property text, the list of earlier changes and a scratch clone" % suffix
     json.dump(m, open(os.path.join(dst, "meta.json"), "w"), indent=1)
